@@ -135,6 +135,10 @@ class _StatePointDict(JSONAttrDict):
                 os.replace(job.path, new_workspace)
             except OSError as error:
                 os.replace(tmp_statepoint_file, self.filename)  # rollback
+                # The job was not moved, so the in-memory state point must
+                # not keep the rejected modification either.
+                with self._suspend_sync:
+                    self._update(job._cached_statepoint)
                 if error.errno in (errno.EEXIST, errno.ENOTEMPTY, errno.EACCES):
                     raise DestinationExistsError(new_id)
                 else:
